@@ -46,8 +46,17 @@ pub static IN_RUN: AtomicBool = AtomicBool::new(false);
 /// Invocations of the sentinel panic hook.
 pub static SENTINEL_HITS: AtomicUsize = AtomicUsize::new(0);
 
+/// Generation of the sentinel hook that is supposed to be in place.
+pub static SENTINEL_GEN: AtomicU64 = AtomicU64::new(0);
+
 pub fn install_sentinel_hook() {
-    panic::set_hook(Box::new(|info| {
+    // every installation is a new generation: putting back an *older* sentinel (a hook saved at
+    // another moment than the run's first poll) does not count as restoring the right hook
+    let generation = SENTINEL_GEN.fetch_add(1, Ordering::SeqCst) + 1;
+    panic::set_hook(Box::new(move |info| {
+        if SENTINEL_GEN.load(Ordering::SeqCst) != generation {
+            return;
+        }
         SENTINEL_HITS.fetch_add(1, Ordering::SeqCst);
         // Harness bugs must stay visible; the probe and planned panics are silent.
         if !IN_RUN.load(Ordering::SeqCst) && info.payload().downcast_ref::<Probe>().is_none() {
@@ -422,6 +431,79 @@ pub fn run_case(case: &CaseSpec) -> RunOutput {
     let feats = lazy_parser(case, Rc::clone(&shared));
     let stream = build_stream(case, feats);
     drive(case, shared, stream)
+}
+
+/// A run over structurally identical ("twin") features: the same feature delivered several times
+/// by the parser (same name, path, positions, text - only the `Source` allocations differ). Returns
+/// problems found by a small dedicated oracle that identifies features by `Source` address only.
+pub fn run_twins(seed: u64, idx: u64) -> (RunOutput, Vec<(&'static str, &'static str, String)>) {
+    let mut r = Rng::new(seed.wrapping_mul(0x7717).wrapping_add(idx));
+    let prof = spec::Profile::by_name("general");
+    let mut case = spec::generate(&prof, seed ^ 0x7717, idx);
+    // one small feature without failures, retries, serial tags or filters ...
+    let n_sc = r.range(1, 3);
+    let in_rule = r.chance(1, 2);
+    let mk_sc = |i: usize| spec::ScSpec {
+        uid: i as u32,
+        name: format!("sc s{i}"),
+        tags: Vec::new(),
+        steps: vec![spec::StepSpec { kw: 0, text: format!("step s{i} i0"), kind: spec::StepKind::Run, unit: format!("S:s{i}:0"), doc: None, table: None }],
+    };
+    let scs: Vec<spec::ScSpec> = (0..n_sc).map(mk_sc).collect();
+    let f = spec::FeatSpec {
+        uid: 0,
+        name: "feat f0".into(),
+        tags: Vec::new(),
+        bg: Vec::new(),
+        scenarios: if in_rule { scs[..1].to_vec() } else { scs.clone() },
+        rules: if in_rule { vec![spec::RuleSpec { uid: 0, name: "rule r0".into(), tags: Vec::new(), bg: Vec::new(), scenarios: scs[1..].to_vec() }] } else { Vec::new() },
+        path: r.chance(1, 2).then(|| "/virt/twin.feature".into()),
+    };
+    // ... delivered 2-4 times
+    let copies = r.range(2, 4);
+    case.items = (0..copies).map(|_| spec::Item::Feat(f.clone())).collect();
+    case.pend = (0..=copies).map(|_| if r.chance(1, 3) { vec![spec::Pend::Sched] } else { Vec::new() }).collect();
+    case.cfg = spec::Cfg::default();
+    case.cfg.b_concurrency = Some(*r.pick(&[Some(1), Some(2), Some(3), Some(64), None]));
+    case.plan = (0..n_sc).map(|i| (format!("S:s{i}:0"), vec![spec::Behav { gates_before: r.below(2) as u8, ..spec::Behav::PASS }])).collect();
+    case.world_plan = vec![spec::WorldBehav::Ok];
+    let out = run_case(&case);
+    let mut v: Vec<(&'static str, &'static str, String)> = Vec::new();
+    match &out.end {
+        End::Ended => {}
+        End::PanicEscaped(_) => v.push(("C04", "termination:panic-escaped", format!("{copies} copies of one feature, limit {:?}: a panic escaped the runner's stream ({:?})", case.cfg.limit(), out.end))),
+        other => v.push(("C04", "termination:twin-features", format!("{copies} copies of one feature, limit {:?}: run ended as {other:?}", case.cfg.limit()))),
+    }
+    let started = out.evs.iter().filter(|e| matches!(e.ev, evrec::Ev::Sc(evrec::ScEv::Started))).count();
+    if out.end == End::Ended && started != copies * n_sc {
+        v.push(("C04", "set:missing", format!("{copies} copies of a feature with {n_sc} scenario(s): {started} scenarios started")));
+    }
+    // brackets, by Source address
+    let mut ptrs: Vec<usize> = Vec::new();
+    for e in &out.evs {
+        if let Some(f) = e.f {
+            if !ptrs.contains(&f.ptr) {
+                ptrs.push(f.ptr);
+            }
+        }
+    }
+    if out.end == End::Ended && ptrs.len() != copies {
+        v.push(("C03", "framing:source-identity", format!("{copies} copies of one feature were delivered, events name {} distinct feature Sources", ptrs.len())));
+    }
+    for p in &ptrs {
+        let of: Vec<&evrec::Rec> = out.evs.iter().filter(|e| e.f.is_some_and(|f| f.ptr == *p)).collect();
+        let st: Vec<usize> = of.iter().filter(|e| e.ev == evrec::Ev::FeatStarted).map(|e| e.idx).collect();
+        let fi: Vec<usize> = of.iter().filter(|e| e.ev == evrec::Ev::FeatFinished).map(|e| e.idx).collect();
+        let first = of.first().map(|e| e.idx);
+        let last = of.last().map(|e| e.idx);
+        if st.len() != 1 || st.first().copied() != first {
+            v.push(("C03", "framing:feature-started", format!("twin feature @{p:#x}: Feature::Started at {st:?}, its first event is #{first:?}")));
+        }
+        if out.end == End::Ended && (fi.len() != 1 || fi.first().copied() != last) {
+            v.push(("C03", "framing:feature-finished", format!("twin feature @{p:#x}: Feature::Finished at {fi:?}, its last event is #{last:?}")));
+        }
+    }
+    (out, v)
 }
 
 /// The lazy parser stream of a case (for callers that build their own pipeline).
